@@ -112,7 +112,7 @@ pub fn run_check(prop: &str, tier: &str) -> i32 {
             histex_part(&mut run, tier, &[hp("auth", 3, 4)], &[own], HX);
             run.finish()
         }
-        "C03" => histex_check(prop, tier, &[hp("edit", 4, 5)], &["C03."], HX),
+        "C03" => histex_check(prop, tier, &[hp("edit", 4, 5), hp("hyb", 3, 4)], &["C03."], HX),
         "C04" => histex_check(prop, tier, &[hp("rot", 4, 5), hp("disrot", 4, 5)], &["C04."], HX),
         "C05" => histex_check(prop, tier, &[hp("rotdel", 4, 5), hp("rot", 3, 4), hp("disrot", 4, 5)], &["C05."], HX),
         "C06" => histex_check(prop, tier, &[hp("dis", 4, 6), hp("disrot", 4, 5)], &["C06."], HX),
@@ -122,7 +122,7 @@ pub fn run_check(prop: &str, tier: &str) -> i32 {
         "C10" => histex_check(prop, tier, &[hp("failrot", 3, 4), hp("args", 3, 4), hp("trace", 3, 5)], &["C10."], HX),
         "C11" => {
             let mut run = Run::new(prop, tier, "model_checking");
-            histex_part(&mut run, tier, &[hp("rot", 3, 4), hp("edit", 3, 4), hp("rt", 3, 4)], &["C11."], HX);
+            histex_part(&mut run, tier, &[hp("rot", 3, 4), hp("edit", 3, 4), hp("rt", 3, 4), hp("hyb", 4, 5)], &["C11."], HX);
             crate::polmat::part(&mut run, tier == "thorough", &["C11."]);
             run.finish()
         }
